@@ -1569,6 +1569,9 @@ class Scene:
         if not np.allclose(old_position, aircraft_position) or not np.allclose(old_orient, aircraft_orient):
             self._perform_geometry_and_atmos_calcs()
 
+        # Whatever changed, results stored for the previous state are no longer valid
+        self._solved = False
+
 
     def set_aircraft_control_state(self, control_state={}, aircraft=None):
         """Sets the control state of the given aircraft.
